@@ -52,6 +52,7 @@ func (c *Contract) clauses(kind string) []*Clause {
 type SpecParam struct{ Name, Type string }
 
 type SpecFn struct {
+	Abstract bool // uninterpreted: no definition at all
 	Opaque bool // emitted as an uninterpreted function with a pattern-triggered definition
 	Pkg    string
 	Name   string
@@ -170,8 +171,15 @@ func (sp *Specs) parseFile(pkgPath, file string) error {
 			case "pred", "fn":
 				// pred name(p T, q U) := expr   |  fn name(p T) R := expr
 				idx := strings.Index(rest, ":=")
+				abstract := false
 				if idx < 0 {
-					return fmt.Errorf("%s: missing := in %s", where, kw)
+					if !opaque {
+						return fmt.Errorf("%s: missing := in %s", where, kw)
+					}
+					// "opaque pred name(params)" without a body: an uninterpreted predicate
+					abstract = true
+					idx = len(rest)
+					rest += ":="
 				}
 				head, bodyTxt := strings.TrimSpace(rest[:idx]), rest[idx+2:]
 				op := strings.Index(head, "(")
@@ -179,7 +187,7 @@ func (sp *Specs) parseFile(pkgPath, file string) error {
 				if op < 0 || cp < op {
 					return fmt.Errorf("%s: bad %s header", where, kw)
 				}
-				fn := &SpecFn{Pkg: pkgPath, Name: strings.TrimSpace(head[:op]), Where: where, Body: bodyTxt, Opaque: opaque}
+				fn := &SpecFn{Pkg: pkgPath, Name: strings.TrimSpace(head[:op]), Where: where, Body: bodyTxt, Opaque: opaque, Abstract: abstract}
 				fn.Result = strings.TrimSpace(head[cp+1:])
 				if kw == "pred" {
 					fn.Result = "bool"
